@@ -75,7 +75,7 @@ Qed.
 
 (* a connection is admitted outbound only after a transport dial *)
 Lemma dial_addrs_admitted : forall sites m p addrs i,
-  In PvAdmitted (dial_addrs sites m p i addrs) -> exists k, In (PvTransportDial k) (dial_addrs sites m p i addrs).
+  In PvConnected (dial_addrs sites m p i addrs) -> exists k, In (PvTransportDial k) (dial_addrs sites m p i addrs).
 Proof.
   intros sites m p addrs. induction addrs as [|a r IH]; intros i H; cbn in *; [contradiction|].
   apply in_app_or in H. destruct H as [H|H].
@@ -208,7 +208,7 @@ Proof.
 Qed.
 
 Lemma outbound_admitted_dial : forall sites m p addrs,
-  In PvAdmitted (outbound sites m p addrs) -> exists k, In (PvTransportDial k) (outbound sites m p addrs).
+  In PvConnected (outbound sites m p addrs) -> exists k, In (PvTransportDial k) (outbound sites m p addrs).
 Proof.
   intros sites m p addrs H. unfold outbound in *. apply in_app_or in H. destruct H as [H|H].
   - destruct (has_gate sites GPeerDial); cbn in H; intuition discriminate.
@@ -222,14 +222,14 @@ Lemma blocked_never_admitted_l : forall sites h, (forall g, has_gate sites g = t
      (forall addrs, outbound sites m p addrs = [PvPeerDial p false]) /\
      (forall oa, intercept_accept m oa = true ->
         inbound sites m p oa = [PvAccept true; PvHandshake; PvSecured true p false; PvClosed]) /\
-     (forall oa, ~ In PvAdmitted (inbound sites m p oa))) /\
+     (forall oa, ~ In PvConnected (inbound sites m p oa))) /\
   (forall a b, model_has m (tid (RAddr a)) -> norm_ip b = norm_ip a ->
      (forall p addrs j, nth_error addrs j = Some (Some b) -> ~ In (PvTransportDial j) (outbound sites m p addrs)) /\
      (forall p, inbound sites m p (Some b) = [PvAccept false; PvClosed])) /\
   (forall s b, wf_snet s -> snet_key s <> None -> wf_ip b -> model_has m (tid (RSubnet s)) -> contains s b = true ->
      (forall p addrs j, nth_error addrs j = Some (Some b) -> ~ In (PvTransportDial j) (outbound sites m p addrs)) /\
      (forall p, inbound sites m p (Some b) = [PvAccept false; PvClosed])) /\
-  (forall p addrs, In PvAdmitted (outbound sites m p addrs) ->
+  (forall p addrs, In PvConnected (outbound sites m p addrs) ->
      exists k, In (PvTransportDial k) (outbound sites m p addrs)).
 Proof.
   intros sites h Hg Hw m.
